@@ -271,7 +271,7 @@ def gen_hist(rng):
     return {"op": "hist", "base": base, "edits": edits, "maskflip": maskflip, "model2": model2, "sky2": sky2,
             "twin": twin, "order": order, "sky_edit": sky_edit}
 
-def gen_kinds(rng):
+def gen_kinds(rng, f32fine=False):
     """input KINDS: integer- / bool- / float32-typed and list-built data, noise and model arrays (the model also as a plain
     ndarray), where float64 Array2D objects are usual.  The model data is float-typed (or the data is), so that the residual
     is a float array: np.divide(..., out=np.zeros_like(residual)) refuses integer residuals in the current code."""
@@ -282,6 +282,9 @@ def gen_kinds(rng):
     dk = rng.choice(["int64", "int64", "int32", "int8", "bool", "float32", "list", "list", "float64"])
     nk = rng.choice(["float64", "float64", "int64", "int32", "list"])
     mk = rng.choice(["float64", "float64", "float32"] + (["int64"] if dk.startswith("float") else []))
+    if f32fine:
+        dk, nk, mk = "float32", "float64", "float64"
+        if mode == "native": mode = "slim"; bits = [1 if rng.random() < p else 0 for _ in range(n)]
     model_nd = rng.random() < 0.35
     if dk == "float64" and nk == "float64" and mk == "float64": model_nd = True
     sky = rng.choice([0.0, 0.0] + SKIES)
@@ -302,11 +305,17 @@ def gen_kinds(rng):
         if masked and mk != "int64": mv = rng.choice([-3.0, 0.0, 1048576.0])
         d.append(dv); nz.append(nv); m.append(mv)
     if mk != "int64" and all(x == round(x) for x in m): m[rng.randrange(n)] += 0.25     # a float-valued model
+    tolerant = False
+    if dk == "float32" and mk == "float64" and nk == "float64" and mode != "native":
+        # the residual needs more than the 24 bits of the data's type: a buffer that inherits float32 shows at 6e-8; double
+        # rounding (squares, sums) is visible too, so these cases are compared within 1e-9 (KFitR).  Not on the masked-native
+        # path, which writes into np.zeros_like(data) in the current code (float32 results there)
+        m = [x + rng.randint(1, 2 ** 20 - 1) * 2.0 ** -30 for x in m]; tolerant = True
     invkind = rng.choice(["noinv", "noinv", "noinv", "partial"])
     via = "imaging" if sky != 0.0 else rng.choice(["imaging", "fitdataset"] + (["abstract"] if (mode != "native" and invkind == "noinv") else []))
     return {"op": "fit", "shape": [h, w], "mask": bits, "mode": mode, "sky": sky, "data": d, "noise": nz, "model": m,
             "inv": None if invkind == "noinv" else gen_inv(rng, invkind), "via": via,
-            "dtypes": {"data": dk, "noise": nk, "model": mk}, "model_nd": model_nd, "geom": rng.randint(0, 3)}
+            "dtypes": {"data": dk, "noise": nk, "model": mk}, "model_nd": model_nd, "geom": rng.randint(0, 3), "tolerant": tolerant}
 
 def gen_dmhist(rng):
     """histories on DatasetModel objects: the fit's OWN default object (none passed), edited by the user, must not leak into
@@ -359,13 +368,31 @@ def gen_prod(rng):
         maps = [[[rng.randint(0, 4) / 4.0 for _ in range(p)] for _ in range(npix)] for p, _ in st]
         if np.linalg.matrix_rank(np.hstack([np.array(m) for m in maps])) == tot: break
     kinds = [("mapper" if r else rng.choice(["func", "func", "mapper"])) for _, r in st]
+    wt = [False, False]
+    if rng.random() < 0.45:
+        # a REAL MapperRectangular (its mapping matrix comes from the grids) and both production classes: the factory returns
+        # InversionImagingWTilde for use_w_tilde=True and InversionImagingMapping otherwise
+        h, w = rng.choice([(3, 3), (3, 4), (4, 3)])
+        bits = [1 if rng.random() < 0.15 else 0 for _ in range(h * w)]
+        npix = bits.count(0)
+        mesh = rng.choice([(2, 2), (1, 2), (2, 1), (1, 3), (2, 2)])
+        pm = mesh[0] * mesh[1]
+        wt = [bool(rng.randint(0, 1)), bool(rng.randint(0, 1))]
+        st = [(pm, 1)]; kinds = ["real"]; maps = [[]]
+        if not any(wt) and rng.random() < 0.5:
+            fm = [[rng.randint(0, 4) / 4.0] for _ in range(npix)]; fm[rng.randrange(npix)] = [1.0]
+            pos = rng.randint(0, 1)
+            st.insert(pos, (1, 0)); kinds.insert(pos, "func"); maps.insert(pos, fm)
+        tot = sum(p for p, _ in st)
+        real = list(mesh)
+    else: real = None
     blocks = [spd(rng, p) if r else [] for p, r in st]
     blocks2 = [spd(rng, p) if r else [] for p, r in st]
     return {"op": "prod", "shape": [h, w], "mask": bits, "data": [rnd_val(rng) + 4.0 for _ in range(npix)],
             "noise": [rng.choice(NOISE) for _ in range(npix)], "psf": rng.randrange(len(PSFS)), "objs": [[p, r] for p, r in st],
             "kinds": kinds, "maps": maps, "blocks": blocks, "blocks2": blocks2, "sky": rng.choice([0.0, 0.0] + SKIES),
             "preF": spd(rng, tot) if rng.random() < 0.5 else None, "factory2": bool(rng.randint(0, 1)),
-            "edge_zero": bool(rng.randint(0, 1)), "deep": rng.random() < 0.3}
+            "edge_zero": bool(rng.randint(0, 1)) and real is None, "deep": rng.random() < 0.3, "real": real, "wtilde": wt}
 
 def gen_invhist(rng):
     k = rng.randint(1, 3)
@@ -435,6 +462,15 @@ def gen_vis(rng):
 def gen_inputs(tier, rng):
     big = tier == "thorough"
     vias = ["imaging", "imaging", "fitdataset"]
+    # The streams whose cases check for remembered state WITHIN the case come first: state leaked through a module-level or
+    # default object would also break later single-evaluation cases, whose replay alone does not reproduce the failure; the
+    # first failing case (the one written as the replay) is then a self-contained history.
+    # ---- inversion histories (shared / default settings and preloads objects), DatasetModel histories (default object, shared
+    # object), histories on one dataset / one fit object, production inversion classes
+    for _ in range(200 if big else 30): yield gen_invhist(rng)
+    for _ in range(80 if big else 20): yield gen_dmhist(rng)
+    for _ in range(600 if big else 80): yield gen_hist(rng)
+    for _ in range(100 if big else 25): yield gen_prod(rng)
     i = 0
     for (h, w) in shapes_upto(6 if big else 4):
         for bits in itertools.product([0, 1], repeat=h * w):
@@ -447,17 +483,12 @@ def gen_inputs(tier, rng):
                         yield gen_fit(rng, h, w, bits, mode, s, invkind, via)
     for _ in range(1200 if big else 100):
         yield rnd_fit(rng, vias, geom=rng.randint(0, 3))
-    # ---- histories on one dataset / one fit object; inversion histories
-    for _ in range(600 if big else 80): yield gen_hist(rng)
-    for _ in range(200 if big else 30): yield gen_invhist(rng)
-    # ---- input KINDS; DatasetModel histories (default object, shared object); the AbstractFit sibling
-    for _ in range(500 if big else 70): yield gen_kinds(rng)
-    for _ in range(150 if big else 20): yield gen_dmhist(rng)
-    for _ in range(200 if big else 25):
+    # ---- input KINDS; the AbstractFit sibling
+    for _ in range(300 if big else 70): yield gen_kinds(rng)
+    for _ in range(60 if big else 12): yield gen_kinds(rng, f32fine=True)
+    for _ in range(100 if big else 25):
         yield rnd_fit(rng, ["abstract"], mode=rng.choice(["slim", "native_nomask"]), sky=0.0, invkind="noinv", geom=rng.randint(0, 3),
                       route=rng.choice(["fresh", "fresh", "arith", "copy"]))
-    # ---- production inversion classes
-    for _ in range(200 if big else 25): yield gen_prod(rng)
     # ---- derived datasets / arrays
     for _ in range(800 if big else 100):
         mode = rng.choice(["native", "slim", "slim", "native_nomask"])
@@ -490,10 +521,17 @@ def gen_inputs(tier, rng):
         n = h * w
         bits = [1 if rng.random() < rng.choice([0.0, 0.3, 0.7]) else 0 for _ in range(n)]
         e = rng.choice([0, 0, 0, -40, 40])
+        edits = None
+        if rng.random() < 0.4:
+            edits = []
+            for _ in range(rng.randint(1, 2)):
+                which = rng.choice(["data", "noise", "model"])
+                edits.append([which, rng.randrange(n), rng.choice(NOISE) if which == "noise" else rnd_val(rng) * 2.0 ** e])
         yield {"op": "util", "shape": [h, w] if two_d else [n], "mask": bits,
                "data": [(0.0 if rng.random() < 0.1 else rnd_val(rng) * 2.0 ** e) for _ in range(n)],
                "noise": [rng.choice(NOISE) for _ in range(n)], "model": [rnd_val(rng) * 2.0 ** e for _ in range(n)],
-               "wrap": bool(two_d and rng.random() < 0.4)}
+               "wrap": bool(two_d and rng.random() < 0.4),
+               "edits": edits}
     # ---- arbitrary preloaded regularization matrices / log-determinants
     for _ in range(300 if big else 40):
         iv = gen_inv(rng, rng.choice(["all", "partial", "partial", "none"]))
@@ -871,7 +909,7 @@ def read_fit(fit, env, model, use_mask, sky, ivd, order=None, inv=None, tolerant
 def fit_kind(inp):
     return (f"fit/{inp['mode']}/{'sky' if inp['sky'] else 'nosky'}/{'noinv' if inp['inv'] is None else 'inv'}/{inp['via']}"
             + ("" if inp.get("route", "fresh") == "fresh" else "/" + inp["route"])
-            + ("/kinds" if inp.get("dtypes") or inp.get("model_nd") else ""))
+            + ("/kinds" if inp.get("dtypes") or inp.get("model_nd") else "") + ("/tolerant" if inp.get("tolerant") else ""))
 
 def may_refuse(inp):
     """computed from the INPUT: the masked-native path writes into np.zeros_like(data); with integer / bool typed data
@@ -886,7 +924,8 @@ def run_fit(inp):
     inv = None if inp["inv"] is None else make_inv(inp["inv"])
     fit = make_fit(env, inp["via"], inp["sky"], inv)
     try:
-        coq, py_ok, detail, o = read_fit(fit, env, env["model"], env["use_mask"], inp["sky"], inp["inv"], inv=inv)
+        coq, py_ok, detail, o = read_fit(fit, env, env["model"], env["use_mask"], inp["sky"], inp["inv"], inv=inv,
+                                         tolerant=bool(inp.get("tolerant")))
     except TypeError as e:
         if may_refuse(inp) and "Cannot cast ufunc" in str(e):
             _COUNTS["loud_refusals"] += 1
@@ -1005,21 +1044,31 @@ def run_prod(inp):
         out = []
         for (p, r), kind, mp, b in zip(inp["objs"], inp["kinds"], inp["maps"], blocks):
             reg = c["HReg2" if inp["deep"] else "HReg"](b, p) if r else None
+            if kind == "real":
+                osamp = aa.OverSamplerUniform(mask=mask, sub_size=1)
+                g = osamp.over_sampled_grid
+                mg = aa.MapperGrids(mask=mask, source_plane_data_grid=g, image_plane_mesh_grid=None, adapt_data=None,
+                                    source_plane_mesh_grid=aa.Mesh2DRectangular.overlay_grid(grid=g, shape_native=tuple(inp["real"])))
+                out.append(aa.MapperRectangular(mapper_grids=mg, over_sampler=osamp, border_relocator=None, regularization=reg))
+                continue
             M = np.array(mp, dtype=float).reshape((len(inp["data"]), p))
             if kind == "func": out.append(aa.m.MockLinearObjFuncList(parameters=p, grid=grid, mapping_matrix=M))
             else: out.append((c["HMapper2"] if inp["deep"] else aa.m.MockMapper)(parameters=p, mapping_matrix=M, regularization=reg, edge_pixel_list=[]))
         return out
-    settings = aa.SettingsInversion(use_w_tilde=False, force_edge_pixels_to_zeros=inp["edge_zero"])
+    from autoarray.inversion.inversion.imaging.w_tilde import InversionImagingWTilde
+    wts = inp.get("wtilde") or [False, False]
+    settings = aa.SettingsInversion(use_w_tilde=wts[0], force_edge_pixels_to_zeros=inp["edge_zero"])
+    settings_b = settings if wts[1] == wts[0] else aa.SettingsInversion(use_w_tilde=wts[1], force_edge_pixels_to_zeros=inp["edge_zero"])
     preF = None if inp["preF"] is None else np.array(inp["preF"], dtype=float)
     preloads = c["Preloads"](curvature_matrix=preF) if preF is not None else c["Preloads"]()
     coqs, outs, detail = [], [], []; py_ok = True
     invs = []
-    for tag, blocks, factory in (("first inversion", inp["blocks"], True),
-                                 ("second inversion (same settings / preloads objects)", inp["blocks2"], inp["factory2"])):
+    for tag, blocks, factory, wt, settings in (("first inversion", inp["blocks"], True, wts[0], settings),
+                                               ("second inversion (same preloads object)", inp["blocks2"], inp["factory2"] or wts[1], wts[1], settings_b)):
         objs = objs_from(blocks)
         mkinv = aa.Inversion if factory else InversionImagingMapping
         inv = mkinv(dataset=ds, linear_obj_list=objs, settings=settings, preloads=preloads)
-        if not isinstance(inv, InversionImagingMapping): raise RuntimeError("factory returned " + type(inv).__name__)
+        if not isinstance(inv, InversionImagingWTilde if wt else InversionImagingMapping): raise RuntimeError("factory returned " + type(inv).__name__)
         sfp, pfp = obj_fp(settings), obj_fp(preloads)
         F = np.array(inv.curvature_matrix, dtype=float, copy=True)        # snapshot BEFORE the terms are read
         iv = {"objs": inp["objs"], "blocks": blocks, "F": F.tolist(), "s": [float(x) for x in np.asarray(inv.reconstruction, dtype=float)]}
@@ -1045,7 +1094,8 @@ def run_prod(inp):
         bad = same_out(o, observe_inv(inv, iv))
         if bad: py_ok = False; detail.append("[re-read] a second read of the same inversion differs in " + ", ".join(bad))
     return {"coq": coqs[0], "extra_coq": coqs[1:], "out": outs, "py_ok": py_ok, "nontrivial": True, "detail": "; ".join(detail) or None,
-            "kind": "prod/" + inv_kind({"objs": inp["objs"]}) + ("/preF" if preF is not None else "")}
+            "kind": "prod/" + inv_kind({"objs": inp["objs"]}) + ("/preF" if preF is not None else "")
+                    + ("/real-mapper/" + "+".join("wtilde" if x else "mapping" for x in wts) if inp.get("real") else "")}
 
 def observe_inv(inv, iv):
     o = {}
@@ -1172,6 +1222,24 @@ def run_util(inp):
         mask = aa.Mask2D(mask=mk, pixel_scales=1.0)
         wrap = lambda v: aa.Array2D(values=np.where(mk, 0.0, v), mask=mask, store_native=True).with_new_array(v.copy())
         d, n, m = wrap(d), wrap(n), wrap(m)
+    coqs, outs, details = [], [], []; py_all = True
+    # the same argument objects are used for a SECOND round of calls after the user edited them in place (a function that
+    # remembers something about its arguments -- by identity, shape, ... -- returns stale values then)
+    for rnd in range(2 if inp.get("edits") else 1):
+        if rnd == 1:
+            for which, pos, val in inp["edits"]:
+                arr = {"data": d, "noise": n, "model": m}[which]
+                if len(shape) == 2: arr[pos // shape[1], pos % shape[1]] = val
+                else: arr[pos] = val
+        D, N, M = flat(d), flat(n), flat(m)
+        coq, extra, o, py_ok, detail = util_round(fu, d, n, m, mask, inp["mask"], D, N, M)
+        coqs += [coq] + extra; outs.append(o)
+        if not py_ok: py_all = False; details.append(("[second round, after in-place edits] " if rnd else "") + detail)
+    return {"coq": coqs[0], "extra_coq": coqs[1:], "out": outs[0] if len(outs) == 1 else outs, "py_ok": py_all, "nontrivial": True,
+            "kind": "util/" + ("array2d" if inp.get("wrap") else f"{len(shape)}d") + ("/edits" if inp.get("edits") else ""),
+            "detail": "; ".join(details) or None}
+
+def util_round(fu, d, n, m, mask, bits, D, N, M):
     before = [np.array(np.asarray(x), copy=True) for x in (d, n, m, mask)]
     o = {}
     with np.errstate(all="ignore"):
@@ -1194,19 +1262,19 @@ def run_util(inp):
         kept = flat(r) == o["res"] and flat(rw) == o["resw"] and flat(cm) == o["cmap"] and flat(cmw) == o["cmapw"]
     after = [np.asarray(x) for x in (d, n, m, mask)]
     unchanged = all(np.array_equal(a, b) for a, b in zip(before, after)) and kept
-    tbl = ln_table(inp["noise"])
+    tbl = ln_table(N)
     out = (f"(Build_utilout {ql(o['res'])} {ql(o['nres'])} {ql(o['cmap'])} {cq(fq(o['chi2']))} {cq(fq(o['nn']))} "
            f"{ql(o['resw'])} {ql(o['nresw'])} {ql(o['cmapw'])} {cq(fq(o['chi2w']))} {cq(fq(o['fast']))} {cq(fq(o['nnw']))} "
            f"{qol([fopt(x) for x in o['rff']])} {qol([fopt(x) for x in o['rffw']])})")
-    coq = (f"(K0 (KUtil {ctbl(tbl)} TP {clist([cbool(b) for b in inp['mask']])} {ql(inp['data'])} "
-           f"{ql(inp['noise'])} {ql(inp['model'])} {out}))")
-    extra = [f"(KUtilX {ql(o['res'])} {ql(inp['data'])} {clist([cbool(b) for b in inp['mask']])} {xl(o['rff'])} {xl(o['rffx'])})"]
-    nn = sum(math.log(2 * math.pi * x * x) for x in inp["noise"])
-    nnw = sum(math.log(2 * math.pi * x * x) for x, b in zip(inp["noise"], inp["mask"]) if not b)
+    coq = (f"(K0 (KUtil {ctbl(tbl)} TP {clist([cbool(b) for b in bits])} {ql(D)} "
+           f"{ql(N)} {ql(M)} {out}))")
+    extra = [f"(KUtilX {ql(o['res'])} {ql(D)} {clist([cbool(b) for b in bits])} {xl(o['rff'])} {xl(o['rffx'])})"]
+    nn = sum(math.log(2 * math.pi * x * x) for x in N)
+    nnw = sum(math.log(2 * math.pi * x * x) for x, b in zip(N, bits) if not b)
     py_ok = rel_close(o["nn"], nn) and rel_close(o["nnw"], nnw) and unchanged
-    return {"coq": coq, "extra_coq": extra, "out": o, "py_ok": py_ok, "nontrivial": True, "kind": "util/" + ("array2d" if inp.get("wrap") else f"{len(shape)}d"),
-            "detail": None if py_ok else ("a fit_util function modified one of its arguments in place" if not unchanged
-                                          else f"noise normalization {o['nn']} / {o['nnw']} vs {nn} / {nnw}")}
+    detail = None if py_ok else ("a fit_util function modified one of its arguments in place" if not unchanged
+                                 else f"noise normalization {o['nn']} / {o['nnw']} vs {nn} / {nnw}")
+    return coq, extra, o, py_ok, detail
 
 def run_compose(inp):
     from autoarray.fit import fit_util as fu
@@ -1434,7 +1502,7 @@ def run_case(inp):
         r = f(inp)
         d1 = defaults_fp()
         if d0 != d1:
-            names = sorted({n for n, _ in d0 + d1})
+            names = sorted({n for n, f in d0 if (n, f) not in d1} | {n for n, f in d1 if (n, f) not in d0})
             r["py_ok"] = False
             r["detail"] = ((r.get("detail") or "") + "; a shared DEFAULT ARGUMENT object was modified (or created) during the case: "
                            "default of " + ", ".join(names) + ".__init__").lstrip("; ")
